@@ -257,6 +257,35 @@ Section Printer.
   Definition printable (c : poracle) (t : expr) : Prop := wfp c O CTOP t.
 End Printer.
 
+(* ------------------------------------------------------------------ where additional parentheses are harmless
+   Children are numbered as the printer numbers them (`sub c i`); `node_at t path` is the node a path
+   leads to.  Additional parentheses are NOT redundant around a closure or a map pair (these are not
+   expressions) and around an identifier whose NilSafe flag is set (known finding
+   C11-paren-nilsafe-ident: the flag is computed from the token that follows the identifier). *)
+Definition pchild (t : expr) (i : nat) : option expr :=
+  match t with
+  | EUnary _ _ e | EProperty _ e _ _ | EClosure _ e => match i with O => Some e | S _ => None end
+  | EBinary _ _ l r | EMatches _ _ l r | EIndex _ l r | EPair _ l r =>
+      match i with O => Some l | S O => Some r | _ => None end
+  | ESlice _ e f t' => match i with O => Some e | S O => f | S (S O) => t' | _ => None end
+  | EMethod _ e _ args _ => match i with O => Some e | S j => nth_error args j end
+  | EFunction _ _ args _ | EBuiltin _ _ args | EArray _ args | EMap _ args => nth_error args i
+  | ECond _ c x y => match i with O => Some c | S O => Some x | S (S O) => Some y | _ => None end
+  | _ => None
+  end.
+
+Fixpoint node_at (t : expr) (path : list nat) : option expr :=
+  match path with
+  | [] => Some t
+  | i :: r => match pchild t i with Some x => node_at x r | None => None end
+  end.
+
+Definition no_parens_allowed (x : expr) : bool :=
+  match x with EClosure _ _ | EPair _ _ _ => true | EIdent _ _ ns => ns | _ => false end.
+
+Definition harmless (c : poracle) (t : expr) : Prop :=
+  forall path x, node_at t path = Some x -> no_parens_allowed x = true -> c path = O.
+
 (* decimal spelling of a non-negative integer below 10^20 (every int64 literal) *)
 Definition digit_char (d : Z) : ascii := ascii_of_N (Z.to_N (48 + d)).
 Fixpoint dec_aux (fuel : nat) (z : Z) (acc : string) : string :=
